@@ -53,7 +53,7 @@ CHECKS = {
             "All circuits (I,G) in {(1,2),(2,2),(1,3 arity 2)} (thorough +(1,3 arity 3),(2,3),(1,4)) whose gate fan-ins are arbitrary subsets of the other nodes and that contain a cycle, every output subset of size <=2, 3 hash seeds: result acyclic, lint-clean, same outputs, inputs = originals + one auxiliary per cut node; for every input valuation and every stable state, auxiliaries set to the stable values reproduce every output.",
             TRUST, "4/C18"),
     "C07": (True, "explicit-state breadth-first search over the live Circuit object (all operation sequences up to a depth over a finite alphabet), invariant in every state, transition checks on every call",
-            "181-operation alphabet (add with every type / fan-in / fan-out shape incl. missing, duplicate, self-referential names, uid=True; connect / disconnect on all pairs and lists; remove; set_output; add_blackbox with legal, illegal and unknown-pin connections; add_subcircuit with two children; fill_blackbox with matching / non-matching children) from 5 seed circuits, depth 3 (thorough 4), plus a 33-operation core alphabet explored to depth 7 (thorough 9) with exact de-duplication: wiring invariant + blackbox-pin invariant in every state; every raising call adds no edge and raises ValueError; uid=True never touches an existing node.",
+            "181-operation alphabet (add with every type / fan-in / fan-out shape incl. missing, duplicate, self-referential names, uid=True; connect / disconnect on all pairs and lists; remove; set_output; add_blackbox with legal, illegal and unknown-pin connections; add_subcircuit with two children; fill_blackbox with matching / non-matching children) from 5 seed circuits, depth 3 (thorough 4), plus a 33-operation core alphabet explored to depth 6 (thorough 9) with exact de-duplication: wiring invariant + blackbox-pin invariant in every state; every raising call adds no edge and raises ValueError; uid=True never touches an existing node.",
             TRUST + " State counts are summed over first-operation partitions.", "4/C07"),
     "C02": (True, "bounded exhaustive enumeration of programs generated from a reference grammar (all syntax trees up to an operator bound, all item permutations, all layouts with <=d deviations) parsed by the implementation, vs the AST's denotation",
             "ALL concrete syntax trees with <=2 (thorough 3) operator tokens over ~ ! & | ^ ~^ ^~ ?: ( ) and constants (77k programs, 48 assigns per module, failing modules re-run one assign at a time); primitive instances of 8 types at fan-in 1..4 incl. repeated operands, several per statement; 16 modules in ALL item permutations (use before definition, repeated sub-expressions, assignment lists, blackboxes); blackbox pins connected / .p() / omitted / constant; port-list vs declaration cross-check (all combinations for 2 names); every gap of two programs with <=1 (2) layout deviations incl. comments; module selection; nets named like the parser's synthetic names (known finding, listed programs).",
